@@ -66,6 +66,7 @@ func collect(v reflect.Value, seen map[uintptr]bool, out map[string]data.GetValu
 				if _, ok := out[name]; !ok {
 					out[name] = v.Interface().(data.GetValue)
 				}
+				noteOrdered(name, v)
 			}
 		}
 		collect(v.Elem(), seen, out, depth+1)
@@ -88,6 +89,126 @@ func collect(v reflect.Value, seen map[uintptr]bool, out map[string]data.GetValu
 		for _, k := range v.MapKeys() {
 			collect(v.MapIndex(k), seen, out, depth+1)
 		}
+	}
+}
+
+// ordInst: per "<type>.<slice field>" the instance met so far whose slice is longest (>= 2
+// members), for the permutation check of orderCase. Filled by collect.
+var ordInst = map[string]data.GetValue{}
+var ordLen = map[string]int{}
+
+func noteOrdered(name string, v reflect.Value) {
+	sv := v.Elem()
+	for i := 0; i < sv.NumField(); i++ {
+		f := sv.Field(i)
+		if f.Kind() != reflect.Slice || f.Len() < 2 || f.Type().Elem().Kind() == reflect.Uint8 {
+			continue
+		}
+		key := name + "." + sv.Type().Field(i).Name
+		if f.Len() > ordLen[key] && f.Len() <= 12 {
+			ordLen[key] = f.Len()
+			ordInst[key] = v.Interface().(data.GetValue)
+		}
+	}
+}
+
+// elemText: a text that tells two members of an ordered field apart the way the generated code
+// would: a string is itself, a node is what the Generator emits for it, a struct by value
+// (KvPair, …) the texts of its fields.
+func elemText(v reflect.Value, depth int) string {
+	if !v.IsValid() || depth > 3 {
+		return "?"
+	}
+	if v.Kind() == reflect.Interface {
+		if v.IsNil() {
+			return "nil"
+		}
+		v = v.Elem()
+	}
+	switch v.Kind() {
+	case reflect.String:
+		return "s:" + v.String()
+	case reflect.Ptr:
+		if v.IsNil() {
+			return "nil"
+		}
+		if v.Type().Implements(getValueT) && v.CanInterface() {
+			r := emitReal(v.Interface().(data.GetValue))
+			if r.Kind == "error" || r.Kind == "panic" {
+				return "?"
+			}
+			return "n:" + r.Text
+		}
+		return "?"
+	case reflect.Struct:
+		var parts []string
+		for i := 0; i < v.NumField(); i++ {
+			if !v.Type().Field(i).IsExported() {
+				continue
+			}
+			parts = append(parts, elemText(v.Field(i), depth+1))
+		}
+		return "{" + strings.Join(parts, ";") + "}"
+	}
+	return "?"
+}
+
+// orderCase: the emitted text must not be invariant under a permutation of an ordered field
+// whose members the generated code tells apart. A handler that walks a canonical form of the
+// collection (sorted keys of the companion map, a sorted copy) emits the same text for every
+// declaration order: caught here on the real Generator, without model and without running PHP.
+func orderCase(c *vh.Ctx, key string, n data.GetValue) {
+	dot := strings.LastIndexByte(key, '.')
+	typ, fname := key[:dot], key[dot+1:]
+	v := reflect.ValueOf(n).Elem()
+	f := v.FieldByName(fname)
+	if !f.IsValid() || f.Kind() != reflect.Slice || f.Len() < 2 {
+		return
+	}
+	if !f.CanSet() {
+		if !f.CanAddr() {
+			return
+		}
+		f = reflect.NewAt(f.Type(), unsafe.Pointer(f.UnsafeAddr())).Elem()
+	}
+	base := emitReal(n)
+	if base.Kind == "error" || base.Kind == "panic" {
+		return
+	}
+	// the field reaches the text at all: dropping its members changes the text
+	saved := reflect.MakeSlice(f.Type(), f.Len(), f.Len())
+	reflect.Copy(saved, f)
+	i, j := 0, f.Len()-1
+	ti, tj := elemText(f.Index(i), 0), elemText(f.Index(j), 0)
+	if strings.Contains(ti, "?") || strings.Contains(tj, "?") || ti == tj {
+		c.Hit("order-probe:members-not-told-apart")
+		return
+	}
+	empty := reflect.MakeSlice(f.Type(), 0, 0)
+	f.Set(empty)
+	dropped := emitReal(n)
+	f.Set(saved)
+	if dropped.Kind == base.Kind && dropped.Text == base.Text {
+		c.Hit("order-probe:field-not-emitted") // a dropped field (static drop lists), no order to carry
+		return
+	}
+	swapped := reflect.MakeSlice(f.Type(), f.Len(), f.Len())
+	reflect.Copy(swapped, saved)
+	tmp := reflect.New(f.Type().Elem()).Elem()
+	tmp.Set(swapped.Index(i))
+	swapped.Index(i).Set(swapped.Index(j))
+	swapped.Index(j).Set(tmp)
+	f.Set(swapped)
+	after := emitReal(n)
+	f.Set(saved)
+	c.Eval("order:"+key, true)
+	c.Hit("order-probe:checked")
+	if os.Getenv("C16_ONLY") != "" {
+		c.Note("order probe %s len=%d changed=%v", key, f.Len(), !(after.Kind == base.Kind && after.Text == base.Text))
+	}
+	if after.Kind == base.Kind && after.Text == base.Text {
+		c.Violation("order:"+key, fmt.Sprintf("the Go text generated for a %s does not change when two distinguishable members of its ordered field %s (%d members) are exchanged: the generated program cannot keep the declared order", typ, fname, f.Len()),
+			replayCase{Kind: "order", Type: typ, Snip: fname})
 	}
 }
 
@@ -371,6 +492,18 @@ func structStream(c *vh.Ctx, m *vh.Model) {
 	for _, name := range names {
 		structCase(c, m, name, inst[name], "")
 	}
+	orderStream(c)
+}
+
+func orderStream(c *vh.Ctx) {
+	var keys []string
+	for k := range ordInst {
+		keys = append(keys, k)
+	}
+	sort.Strings(keys)
+	for _, k := range keys {
+		orderCase(c, k, ordInst[k])
+	}
 }
 
 func structCase(c *vh.Ctx, m *vh.Model, name string, n data.GetValue, snippet string) {
@@ -452,6 +585,14 @@ func structReplay(c *vh.Ctx, m *vh.Model, rc replayCase) {
 		if prog, _ := parseSnippet(src, filepath.Join(pdir, fmt.Sprintf("s%d.php", i))); prog != nil {
 			collect(reflect.ValueOf(prog), map[uintptr]bool{}, inst, 0)
 		}
+	}
+	if rc.Kind == "order" {
+		if n, ok := ordInst[rc.Type+"."+rc.Snip]; ok {
+			orderCase(c, rc.Type+"."+rc.Snip, n)
+		} else {
+			c.Note("replay: no instance of %s with two members in %s found", rc.Type, rc.Snip)
+		}
+		return
 	}
 	if n, ok := inst[rc.Type]; ok {
 		structCase(c, m, rc.Type, n, "")
